@@ -23,6 +23,7 @@ import multiprocessing as mp
 import pickle
 import threading
 import time
+import types
 
 import lib
 from c15 import patched_clock
@@ -283,13 +284,107 @@ def make_cache(spec):
         def set(self, key, value, ttl=None):
             self.d[key] = pickle.dumps(value)
 
+    # ---- caches that protect their entries: what get() hands out cannot be written to / is not the stored object
+    class ReadOnlyViewCache(DictCache):
+        """stores the mapping it is given, get() returns a READ-ONLY VIEW of it (types.MappingProxyType)"""
+
+        def get(self, key):
+            v = self.d.get(key)
+            self.gets.append(v is not None)
+            return None if v is None else types.MappingProxyType(v)
+
+    class ReadOnlyViewLRU(SpyLRU):
+        """DefaultInMemoryCache (capacity, TTL) whose get() returns a read-only view of the entry"""
+
+        def get(self, key):
+            v = super().get(key)
+            return None if v is None else types.MappingProxyType(v)
+
+    class FrozenSnapshotCache(DictCache):
+        """stores the mapping it is given, get() returns an IMMUTABLE snapshot taken at that moment (a frozen copy: a
+        read-only view of a private copy; nested lists are copied too)"""
+
+        def get(self, key):
+            v = self.d.get(key)
+            self.gets.append(v is not None)
+            return None if v is None else types.MappingProxyType(copy.deepcopy(v))
+
+    class DeepCopyCache(DictCache):
+        """stores a deep copy and returns a deep copy (mutable, private to the reader)"""
+
+        def get(self, key):
+            v = self.d.get(key)
+            self.gets.append(v is not None)
+            return None if v is None else copy.deepcopy(v)
+
+        def set(self, key, value, ttl=None):
+            self.d[key] = copy.deepcopy(value)
+
+    # ---- cache OBJECTS that are falsy as Python objects: a cache is a cache whatever bool() says about it
+    class FalsyDictCache(dict):
+        """a dict subclass implementing the cache interface: bool() is False while it is empty (at construction)"""
+
+        def __init__(self):
+            super().__init__()
+            self.gets = []
+
+        def get(self, key, default=None):
+            v = dict.get(self, key)
+            self.gets.append(v is not None)
+            return v
+
+        def set(self, key, value, ttl=None):
+            self[key] = value
+
+        def delete(self, key):
+            self.pop(key, None)
+
+    class FalsyLenCache(DictCache):
+        """__len__ = number of entries: 0, hence falsy, at first and after every clear()"""
+
+        def __len__(self):
+            return len(self.d)
+
+    class FalsyBoolLRU(SpyLRU):
+        """DefaultInMemoryCache (capacity, TTL) whose bool() is always False"""
+
+        def __bool__(self):
+            return False
+
     if spec[0] == "lru":
         return SpyLRU(spec[1])
     if spec[0] == "dict":
         return DictCache()
     if spec[0] == "pickle":
         return PickleCache()
+    if spec[0] == "roview":
+        return ReadOnlyViewCache()
+    if spec[0] == "roview-lru":
+        return ReadOnlyViewLRU(spec[1])
+    if spec[0] == "frozen-get":
+        return FrozenSnapshotCache()
+    if spec[0] == "deepcopy":
+        return DeepCopyCache()
+    if spec[0] == "falsy-dict":
+        return FalsyDictCache()
+    if spec[0] == "falsy-len":
+        return FalsyLenCache()
+    if spec[0] == "falsy-bool-lru":
+        return FalsyBoolLRU(spec[1])
     raise ValueError(spec)
+
+
+# what each cache kind is in the model: (the model's cache, copying?).  A read-only view / a snapshot taken at get() shows
+# the stored mapping as it is at the time of the lookup, i.e. a reference-storing cache to every reader that does not
+# write; a falsy cache object is the cache it implements (the contract-meeting cache M knows nothing about bool()).
+def model_cache(spec):
+    k = spec[0]
+    if k in ("lru", "roview-lru", "falsy-bool-lru"):
+        return ["lru", spec[1]], False
+    return ["dict"], k in ("pickle", "deepcopy")
+
+
+NEW_CACHE_KINDS = [["roview"], ["roview-lru", 2], ["frozen-get"], ["deepcopy"], ["falsy-dict"], ["falsy-len"], ["falsy-bool-lru", 2]]
 
 
 def consume_decision(d, n):
@@ -543,7 +638,7 @@ def model_run(cases, sort, batch=250):
             for j in part:
                 case = cases[j]
                 spec = case["cache"]
-                mspec = ["lru", spec[1]] if spec[0] == "lru" else ["dict"]
+                mspec, mcopy = model_cache(spec)
                 g = lambda x: [bool(x["strict"]), intern(x["policy"], pols, pix), x["ttl"]]  # noqa: E731
                 h = []
                 for op in case["h"]:
@@ -555,7 +650,7 @@ def model_run(cases, sort, batch=250):
                         h.append(["c", bool(op[1])])
                     else:
                         h.append(["t", op[1]])
-                enc_cases.append([mspec, spec[0] == "pickle", g(case["g1"]), g(case["g2"]), h])
+                enc_cases.append([mspec, mcopy, g(case["g1"]), g(case["g2"]), h])
             lines.append(lib.model_call("cg.batch", bool(sort), cases[part[0]].get("facts") or [], pols, reqs, enc_cases))
             owners.append(part)
     out = [None] * len(cases)
@@ -878,9 +973,9 @@ def sample_family(rng, configs, n, lo, hi, fam):
         yield {"fam": fam, "cfg": c, "quad": rng.choice(QUAD_NAMES), "word": [rng.randrange(nl) for _ in range(rng.randint(lo, hi))]}
 
 
-def all_configs():
+def all_configs(caches=(("lru", 1), ("lru", 2), ("lru", BIG), ("lru", 0), ("dict",), ("pickle",))):
     out = []
-    for cache in (("lru", 1), ("lru", 2), ("lru", BIG), ("lru", 0), ("dict",), ("pickle",)):
+    for cache in caches:
         for ttl in (None, 0, TTL):
             for s1 in (False, True):
                 out.append(cfg(cache, ttl, s1))
@@ -890,9 +985,33 @@ def all_configs():
     return out
 
 
-def random_history(rng, lo, hi):
+def protective_and_falsy_configs():
+    """the configurations of all_configs() on the cache kinds that protect their entries (read-only views, frozen
+    snapshots, deep copies) and on cache objects that are falsy"""
+    return all_configs([tuple(k) for k in NEW_CACHE_KINDS] + [("roview-lru", 1), ("roview-lru", BIG), ("falsy-bool-lru", BIG)])
+
+
+def cache_kind_families(rng, quick):
+    """the enumerated one- and two-guard histories on every new cache kind, over the quadruples whose permits carry
+    obligations that the context meets / does not meet (ctx, ctxw) and, thorough, the others"""
+    for kind in NEW_CACHE_KINDS:
+        one, one_s = cfg(kind, TTL, False), cfg(kind, None, True)
+        two, two_same = cfg(kind, TTL, False, two="other"), cfg(kind, TTL, False, two="same", strict2=True)
+        if quick:
+            yield from enum_family(one, ["ctx", "ctxw"], 2, "enum-cache-kinds")
+            yield from enum_family(two, ["ctx"], 2, "enum-cache-kinds")
+            yield from sample_family(rng, [one, one_s, two, two_same], 60, 3, 5, "enum-cache-kinds-longer-sampled")
+        else:
+            yield from enum_family(one, QUAD_NAMES, 3, "enum-cache-kinds")
+            yield from enum_family(one_s, ["ctx", "ctxw", "num"], 3, "enum-cache-kinds")
+            yield from enum_family(two, ["ctx", "ctxw", "num"], 3, "enum-cache-kinds")
+            yield from enum_family(two_same, ["ctx", "ctxw"], 3, "enum-cache-kinds")
+            yield from sample_family(rng, [one, one_s, two, two_same], 1500, 4, 7, "enum-cache-kinds-longer-sampled")
+
+
+def random_history(rng, lo, hi, configs=None):
     """long histories over the whole pools, one or two guards, any configuration"""
-    c = rng.choice(all_configs())
+    c = rng.choice(configs or all_configs())
     names = rng.sample(POLICY_NAMES, rng.choice([2, 3, 3, 4]))
     reqs = rng.sample(REQS, rng.choice([2, 3, 4, 6, 8]))
     # near-duplicates on purpose: add the quad of the first policy when there is one
@@ -917,7 +1036,7 @@ def random_history(rng, lo, hi):
         else:
             h.append(["t", rng.choice([BELOW, BELOW, PAST, 0, 2, 100])])
     p2 = names[1] if c["two"] == "other" else names[0]
-    return {"fam": "random", "cache": c["cache"] if rng.random() < 0.85 else ["lru", rng.choice([3, 5, -1])],
+    return {"fam": "random", "cache": c["cache"] if configs or rng.random() < 0.85 else ["lru", rng.choice([3, 5, -1])],
             "g1": {"strict": c["strict1"], "policy": POL[names[0]], "ttl": c["ttl"]},
             "g2": {"strict": c["strict2"], "policy": POL[p2], "ttl": c["ttl2"]},
             "facts": FACTS, "h": h}
@@ -1047,7 +1166,7 @@ def resolver_random(rng, lo, hi):
         else:
             h.append(["t", rng.choice([BELOW, PAST, 100])])
     asyn = rng.random() < 0.4
-    cache = rng.choice([["lru", 1], ["lru", 2], ["lru", BIG], ["dict"], ["pickle"]])
+    cache = rng.choice([["lru", 1], ["lru", 2], ["lru", BIG], ["dict"], ["pickle"]] + (NEW_CACHE_KINDS if rng.random() < 0.3 else []))
     ttl = rng.choice([None, 0, TTL, 300])
     strict = rng.random() < 0.3
     g = lambda pn, gr, down: {"strict": strict, "policy": RPOL[pn], "ttl": ttl,  # noqa: E731
@@ -1644,6 +1763,13 @@ def run(chk):
     # requests carrying values that are not JSON (slow path of the key) x type modes x shared cache
     nj = nonjson_enum(rng, 1, 2, 30) if quick else nonjson_enum(rng, 6, 2, 150)
     for gen in (nonjson_sweep(), nj, (nonjson_random(rng, 8, 40) for _ in range(120 if quick else 2500))):
+        for ch in chunks(gen, 6000):
+            if not stop_early(chk):
+                check_cases(chk, ch)
+    # cache kinds that protect their entries (read-only views, frozen snapshots, deep copies) and falsy cache objects
+    pf = protective_and_falsy_configs()
+    for gen in (cache_kind_families(rng, quick), sample_family(rng, pf, 500 if quick else 15000, 3, 6, "sample-cache-kinds"),
+                (dict(random_history(rng, 8, 60, pf), fam="random-cache-kinds") for _ in range(60 if quick else 1500))):
         for ch in chunks(gen, 6000):
             if not stop_early(chk):
                 check_cases(chk, ch)
